@@ -36,7 +36,7 @@ class RandomWalk:
     def choose(self, sched, cur, runnable, forced, key):
         if forced:
             return runnable[self.rng.randrange(len(runnable))]
-        if len(runnable) > 1 and self.rng.random() < self.p:
+        if len(runnable) > 1 and (sched.yielding or self.rng.random() < self.p):
             others = [c for c in runnable if c != cur]
             return others[self.rng.randrange(len(others))]
         return cur
@@ -53,7 +53,7 @@ class BoundaryOnly:
     def choose(self, sched, cur, runnable, forced, key):
         if forced:
             return runnable[self.rng.randrange(len(runnable))]
-        if key[2] == 0 and len(runnable) > 1 and self.rng.random() < self.p:
+        if len(runnable) > 1 and (sched.yielding or (key[2] == 0 and self.rng.random() < self.p)):
             others = [c for c in runnable if c != cur]
             return others[self.rng.randrange(len(others))]
         return cur
@@ -78,6 +78,11 @@ class PCT:
         low = self.change.pop(sched.step, None)
         if low is not None and cur is not None:
             self.prio[cur] = low
+        if sched.yielding and cur is not None:
+            # a yield (timed wait, sleep) is a priority-change point: the
+            # spinning client drops below everybody else
+            self.floor = getattr(self, "floor", 0) - 1
+            self.prio[cur] = self.floor
         best = runnable[0]
         for c in runnable[1:]:
             if self.prio[c] > self.prio[best]:
@@ -118,6 +123,7 @@ class Scheduler:
         self.n_switch_in_lib = 0    # ... at a line/io point (inside the library)
         self.failed = None          # harness failure to re-raise in main
         self.abort = False
+        self.yielding = False       # the current decision is a voluntary yield
 
     # -- runnable set -------------------------------------------------------
     def runnable(self):
@@ -131,7 +137,7 @@ class Scheduler:
         return out
 
     # -- the one decision routine ------------------------------------------
-    def decide(self, cur, key, forced=False, in_lib=False):
+    def decide(self, cur, key, forced=False, in_lib=False, yielding=False):
         """Called by the thread holding the baton (cur) or by main (cur=None).
         Returns after `cur` holds the baton again (or immediately for main /
         a finished client)."""
@@ -148,8 +154,12 @@ class Scheduler:
             return
         cur_ok = (cur is not None and cur in run and not forced)
         default = cur if cur_ok else run[0]
-        to = self.chooser.choose(self, cur if cur_ok else None, run,
-                                 not cur_ok, key)
+        self.yielding = yielding
+        try:
+            to = self.chooser.choose(self, cur if cur_ok else None, run,
+                                     not cur_ok, key)
+        finally:
+            self.yielding = False
         if to not in run:
             to = default
         if to != default:
